@@ -34,8 +34,10 @@ _HEAD = struct.pack(">IIIIHHqqhhhhHHhhh", 0x00010000, 0x00010000, 0, 0x5F0F3CF5,
 _HHEA = struct.pack(">IhhhHhhhhhhhhhhhH", 0x00010000, 800, -200, 0, 1000, 0, 0, 1000, 1, 0, 0, 0, 0, 0, 0, 0, 1)
 
 
-def build_font(groups):
-    """groups: sorted, disjoint (start, end, start_gid); glyph = start_gid + (c - start)."""
+def build_font(groups, uvs=None):
+    """groups: sorted, disjoint (start, end, start_gid); glyph = start_gid + (c - start).
+    uvs: None | [(base, selector, gid | None)] -> an additional cmap format 14 subtable (0,5); gid None = default
+    UVS entry (the variant is the nominal glyph of the base)."""
     ng = 1
     for s, e, g in groups:
         ng = max(ng, min(65535, g + (e - s) + 1))
@@ -48,12 +50,24 @@ def build_font(groups):
     sub = struct.pack(">HHIII", 12, 0, 16 + 12 * len(groups), 0, len(groups))
     for s, e, g in groups:
         sub += struct.pack(">III", s, e, g)
-    cmap = struct.pack(">HHHHI", 0, 1, 3, 10, 12) + sub
+    if uvs:
+        import fontbuild
+        sub14 = fontbuild._cmap_subtable({"format": 14, "uvs": [list(u) for u in uvs]})
+        cmap = struct.pack(">HHHHIHHI", 0, 2, 0, 5, 20, 3, 10, 20 + len(sub14)) + sub14 + sub
+    else:
+        cmap = struct.pack(">HHHHI", 0, 1, 3, 10, 12) + sub
     return _sfnt({"head": _HEAD, "hhea": _HHEA, "maxp": maxp, "hmtx": hmtx, "cmap": cmap})
 
 
 def cmap_spec(groups):
     return ",".join(f"{s}-{e}:{g}" for s, e, g in groups) if groups else "-"
+
+
+def uvs_spec(uvs):
+    """the `uvs` token of `norm runv`: vs:d:lo:hi (default UVS range) | vs:n:cp:gid (non-default mapping)"""
+    if not uvs:
+        return "-"
+    return ",".join(f"{v}:d:{c}:{c}" if g is None else f"{v}:n:{c}:{g}" for c, v, g in uvs)
 
 
 def groups_from_set(cps, gid_of=None):
@@ -235,7 +249,67 @@ def rand_text(r, P, U):
                 for _ in range(r.below(3)):
                     t.append(r.choice(P["seconds"]))
     t = [c for c in t if c not in U.vs and not (0xD800 <= c <= 0xDFFF)]
-    return t or [0x41]
+    t = t or [0x41]
+    if r.chance(2, 5):
+        t = add_selectors(r, t, U, P)
+    return t
+
+
+VS_POOL = [0xFE00, 0xFE01, 0xFE0E, 0xFE0F, 0xE0100, 0xE0101, 0xE01EF]
+
+
+def vs_run(r, lo=1):
+    """one selector, or several consecutive ones"""
+    n = r.choice([1, 1, 1, 2, 2, 3]) if lo == 1 else r.choice([2, 2, 3])
+    return [r.choice(VS_POOL) for _ in range(n)]
+
+
+def add_selectors(r, t, U, P):
+    """variation selectors at the places the normalizer distinguishes: after a base, after a mark / inside a mark
+    run, at the end of a mark run, at the very start, and in a LATER unrelated cluster of the same text (the clusters
+    before it must be normalized as if it were not there)"""
+    t = list(t)
+    marks = [i for i, c in enumerate(t) if c in U.marks]
+    bases = [i for i, c in enumerate(t) if c not in U.marks]
+    for _ in range(r.choice([1, 1, 2, 3])):
+        k = r.below(8)
+        if k < 2 and bases:                       # after a base
+            i = r.choice(bases)
+            t[i + 1:i + 1] = vs_run(r)
+        elif k < 4 and marks:                     # after a mark (inside or at the end of a mark run)
+            i = r.choice(marks)
+            t[i + 1:i + 1] = vs_run(r)
+        elif k == 4:                              # at the start of the buffer
+            t[0:0] = vs_run(r)
+        elif k == 5:                              # a later unrelated cluster: base + selector(s) [+ mark]
+            t += [r.choice([0x78, 0x4E00, 0x2205, 0x41])] + vs_run(r) + ([r.choice(P["latin_marks"])] if r.chance(1, 3) else [])
+        elif k == 6:                              # a later cluster: base + mark + selector
+            t += [r.choice([0x78, 0x61, 0xE1])] + [r.choice(P["latin_marks"])] + vs_run(r)
+        else:                                     # a later simple character, then a lone base + selector at the end
+            t += [0x20, r.choice([0x78, 0x2205])] + vs_run(r)
+        marks = [i for i, c in enumerate(t) if c in U.marks]
+        bases = [i for i, c in enumerate(t) if c not in U.marks]
+    return t
+
+
+def rand_uvs(r, text, U):
+    """cmap format 14 content relevant to `text`: none, or default / non-default entries for some of the
+    (character, selector) pairs that occur adjacently (and a few that do not)"""
+    sel = [c for c in text if c in U.vs]
+    if not sel or r.chance(2, 5):
+        return None
+    pairs = []
+    for i in range(len(text) - 1):
+        if text[i + 1] in U.vs and (text[i], text[i + 1]) not in pairs:
+            pairs.append((text[i], text[i + 1]))
+    # (selector, selector) and (non-adjacent base, selector) pairs keep the binary searches honest
+    extra = [(r.choice(text), r.choice(sel)) for _ in range(2)]
+    out = {}
+    for c, v in pairs + extra:
+        if c >= 0x1000000 or not r.chance(3, 4):
+            continue
+        out[(c, v)] = None if r.chance(1, 3) else 300 + r.below(200)
+    return [(c, v, g) for (c, v), g in sorted(out.items())] or None
 
 
 def rand_clusters(r, text, U):
@@ -296,10 +370,11 @@ def rand_support(r, text, U):
     return groups_from_set(chosen)
 
 
-def run_line(mode, level, inv, groups, text, clusters, masks):
-    f = build_font(groups)
+def run_line(mode, level, inv, groups, text, clusters, masks, uvs=None, nfvs=None):
+    f = build_font(groups, uvs)
     t = ",".join(f"{c}:{cl}:{m}" for c, cl, m in zip(text, clusters, masks))
-    return f"norm run {mode} {level} {inv if inv is not None else '-'} {f.hex()} {cmap_spec(groups)} {t}"
+    return (f"norm runv {mode} {level} {inv if inv is not None else '-'} {nfvs if nfvs is not None else '-'} "
+            f"{f.hex()} {cmap_spec(groups)} {uvs_spec(uvs)} {t}")
 
 
 def gen_run_lines(r, n, U):
@@ -314,7 +389,9 @@ def gen_run_lines(r, n, U):
         masks = [0] * len(text) if mk < 2 else [r.choice([0, 1, 2, 3, 7, 0x80000000, 0x80000005]) for _ in text]
         mode = r.choice([0, 1, 2, 2, 3, 4, 4])
         inv = r.choice([None, None, None, 3])
-        lines.append(run_line(mode, r.below(2), inv, groups, text, clusters, masks))
+        uvs = rand_uvs(r, text, U)
+        nfvs = r.choice([None, None, 5]) if any(c in U.vs for c in text) else None
+        lines.append(run_line(mode, r.below(2), inv, groups, text, clusters, masks, uvs, nfvs))
     return lines
 
 
@@ -327,7 +404,25 @@ def classify_run(ln, out):
     ks = ["mode" + t[2]]
     if not out.startswith("ok"):
         return ks + ["reply:" + out.split()[0]]
-    inp = [x[0] for x in parse_text_tok(t[7])]
+    ttok = t[9] if t[1] == "runv" else t[7]
+    inp = [x[0] for x in parse_text_tok(ttok)]
+    vs_at = [i for i, c in enumerate(inp) if 0xFE00 <= c <= 0xFE0F or 0xE0100 <= c <= 0xE01EF]
+    if vs_at:
+        ks.append("vs")
+        if any(j + 1 in vs_at for j in vs_at): ks.append("vs:consecutive")
+        if vs_at[-1] == len(inp) - 1: ks.append("vs:at-end")
+        if vs_at[0] == 0: ks.append("vs:at-start")
+        if any(unicodedata.category(chr(inp[j - 1])).startswith("M") and j - 1 not in vs_at for j in vs_at if j): ks.append("vs:after-mark")
+        # a base + marks cluster without a selector that precedes a selector
+        first = vs_at[0]
+        b = first
+        while b > 0 and unicodedata.category(chr(inp[b])).startswith("M"): b -= 1
+        if any(unicodedata.category(chr(inp[j])).startswith("M") for j in range(1, b)): ks.append("vs:later-than-a-mark-cluster")
+        if t[1] == "runv":
+            if t[8] != "-": ks.append("vs:font-has-format14")
+            if t[5] != "-": ks.append("vs:not-found-glyph-set")
+            fl = int(out.split()[2])
+            if fl & 128: ks.append("vs:fallback-flag")
     o = out.split()
     recs = [tuple(int(x) for x in z.split(":")) for z in o[3:]]
     outc = [x[0] for x in recs]
@@ -351,7 +446,8 @@ def classify_run(ln, out):
     if fl & 4: ks.append("space-fallback")
     if fl & 16: ks.append("cgj")
     if any(x[7] == 0 and x[0] == 0x34F for x in recs): ks.append("cgj-unhidden")
-    if len(set(x[1] for x in recs)) < len(set(x[1] for x in parse_text_tok(t[7]))): ks.append("clusters-merged")
+    if len(set(x[1] for x in recs)) < len(set(x[1] for x in parse_text_tok(ttok))): ks.append("clusters-merged")
+    if vs_at and len([c for c in outc if 0xFE00 <= c <= 0xFE0F or 0xE0100 <= c <= 0xE01EF]) < len(vs_at): ks.append("vs:absorbed-by-variant")
     return ks
 
 
@@ -439,9 +535,9 @@ def nfc_restricted(text, supported, RC):
     return out
 
 
-def shape_line(fid, text):
+def shape_line(fid, text, flags=0, extra=""):
     t = ",".join(f"{c:x}:{i}" for i, c in enumerate(text))
-    return f"shape {fid} l Latn - 0 0 - - - {t}"
+    return f"shape {fid} l Latn - {flags} 0 - - - {t}{extra}"
 
 
 def parse_shape(out):
@@ -564,22 +660,28 @@ def search_strings(ctx, shim, U, RD, RC, r, n_starters, kmax_exh, n_random):
             k = r.range(kmax_exh + 1, 4) if kmax_exh < 4 else 4
             texts.append([s] + [r.choice(marks) for _ in range(k)])
         half = [c for c in comps if r.chance(1, 2)]
+        # the same texts followed by a LATER unrelated cluster `x + variation selector(s)`: the starter + marks
+        # before it must come out as without it (PRESERVE_DEFAULT_IGNORABLES, so the selectors stay visible)
+        later = [(t, [0x78] + vs_run(r)) for t in texts if len(t) > 1 and r.chance(1, 6)]
+        ctx_chars = [0x78] + VS_POOL
         for vname, sup in (("all", sorted(set(leaves) | set(comps))), ("leaves", leaves),
                            ("half", sorted(set(leaves) | set(half)))):
-            g = groups_from_set(sup)
+            g = groups_from_set(sorted(set(sup) | set(ctx_chars)))
             supset = set(sup)
-            lines = [f"font t {build_font(g).hex()}"] + [shape_line("t", t) for t in texts]
+            lines = [f"font t {build_font(g).hex()}"] + [shape_line("t", t) for t in texts] + \
+                    [shape_line("t", t + sfx, flags=4) for t, sfx in later]
             groups.append(lines)
-            meta.append((vname, g, supset, texts))
+            meta.append((vname, g, supset, texts, later))
     outs = vlib.run_groups(shim, groups, timeout=1800)
-    n = nontriv = 0
+    n = nontriv = nbad = 0
     dist = {}
-    for (vname, g, supset, texts), o, grp in zip(meta, outs, groups):
+    for (vname, g, supset, texts, later), o, grp in zip(meta, outs, groups):
         inv = {}
         for s_, e_, g_ in g:
             for c in range(s_, e_ + 1):
                 inv[g_ + (c - s_)] = c
-        for t, out, ln in zip(texts, o[1:], grp[1:]):
+        cases = [(t, []) for t in texts] + later
+        for (t, sfx), out, ln in zip(cases, o[1:], grp[1:]):
             n += 1
             got = parse_shape(out)
             if len(t) == 1:
@@ -589,24 +691,31 @@ def search_strings(ctx, shim, U, RD, RC, r, n_starters, kmax_exh, n_random):
                 expect = nfc_restricted(t, lambda c: c in supset, RC)
             if vname == "leaves" and len(t) > 1:
                 assert expect == nfd(t)
+            expect = expect + sfx
+            t = t + sfx
             want = [glyph_of(g, c) for c in expect]
-            key = f"{vname}:{len(t) - 1}marks"
+            key = f"{vname}:{len(t) - 1 - len(sfx)}marks" + (":later-selector-cluster" if sfx else "")
             dist[key] = dist.get(key, 0) + 1
             if expect != t:
                 nontriv += 1
             if got != want:
+                nbad += 1
+                if nbad > 3:
+                    continue
                 gotc = [inv.get(x, 0) for x in (got or [])]
                 ctx.violation(f"{vname}: text {['%04X' % c for c in t]} shaped to {['%04X' % c for c in gotc]}, "
                               f"reference (NFC restricted to the font's characters) {['%04X' % c for c in expect]}",
                               {"stage": "search", "stream": "strings", "font_line": grp[0], "request": ln,
                                "expected_glyphs": want, "observed": out, "variant": vname})
-    ctx.note_search("strings", n, nontriv, distribution=dist, starters=len(chosen), marks=len(marks),
+    ctx.note_search("strings", n, nontriv, distribution=dist, starters=len(chosen), marks=len(marks), deviations=nbad,
                     rule="Latin/Greek/Cyrillic starter (every first component of a primary composite) + all strings of "
                          f"0..{kmax_exh} marks (the {len(marks)} BMP second components) + random longer ones up to 4, shaped "
                          "with cmap-only fonts: (all) every composite of the base letter, (leaves) base letters and marks "
                          "only, (half) a random half of the composites; expected = UAX #15 composition over CPython "
-                         "data restricted to supported composites (= NFC / NFD for all / leaves); non-trivial = "
-                         "expected differs from the input")
+                         "data restricted to supported composites (= NFC / NFD for all / leaves); one text in six is "
+                         "shaped again followed by a later unrelated cluster x + 1..3 variation selectors (the font has "
+                         "their glyphs, PRESERVE_DEFAULT_IGNORABLES): same expectation, then x and the selectors; "
+                         "non-trivial = expected differs from the input")
 
 
 def search_reorder(ctx, shim, U, r, per_combo, cross):
@@ -634,7 +743,7 @@ def search_reorder(ctx, shim, U, r, per_combo, cross):
                         pairs.append((m1, m2))
         if not pairs:
             continue
-        g = groups_from_set([0x61] + ms + generic)
+        g = groups_from_set([0x61, 0x78] + VS_POOL + ms + generic)
         lines = [f"font r {build_font(g).hex()}"]
         for m1, m2 in pairs:
             third = r.choice(ms)
@@ -645,30 +754,166 @@ def search_reorder(ctx, shim, U, r, per_combo, cross):
                          else shape_line("r", [0x61, m1, m2, third]))
             lines.append(shape_line("r", [0x61, third, m2, m1]) if U.ccc[third] <= min(U.ccc[m1], U.ccc[m2])
                          else shape_line("r", [0x61, m2, m1, third]))
+            # and on a precomposed base the font lacks (U+00E4: the font has a and U+0308), followed by a later
+            # unrelated cluster x + variation selector(s)
+            sfx = [0x78] + vs_run(r)
+            lines.append(shape_line("r", [0xE4, m1, m2] + sfx, flags=4))
+            lines.append(shape_line("r", [0xE4, m2, m1] + sfx, flags=4))
         groups.append(lines)
         meta.append(pairs)
     outs = vlib.run_groups(shim, groups, timeout=1800)
-    n = nontriv = 0
+    n = nontriv = nbad = 0
     classes = set()
     for pairs, o, grp in zip(meta, outs, groups):
         for i, (m1, m2) in enumerate(pairs):
-            for off in (0, 2):
-                a, b = o[1 + 4 * i + off], o[2 + 4 * i + off]
+            for off in (0, 2, 4):
+                a, b = o[1 + 6 * i + off], o[2 + 6 * i + off]
                 ga, gb = parse_shape(a), parse_shape(b)
                 n += 2
                 nontriv += 2
                 classes.add((U.ccc[m1], U.ccc[m2]))
                 if ga is None or ga != gb or 0 in (ga or [0]):
-                    ctx.violation(f"canonically equivalent mark orders shape differently: U+{m1:04X} (ccc {U.ccc[m1]}, "
-                                  f"modified {U.mcc[m1]}) / U+{m2:04X} (ccc {U.ccc[m2]}, modified {U.mcc[m2]}): {ga} vs {gb}",
+                    nbad += 1
+                    if nbad > 3:
+                        continue          # leave room for the other streams' reports (the count is in the evidence)
+                    texts = [grp[1 + 6 * i + off].split()[10], grp[2 + 6 * i + off].split()[10]]
+                    what = ("canonically equivalent mark orders shape differently" if ga != gb else
+                            "a character whose whole canonical decomposition the font maps is rendered as .notdef")
+                    ctx.violation(f"{what}: U+{m1:04X} (ccc {U.ccc[m1]}, "
+                                  f"modified {U.mcc[m1]}) / U+{m2:04X} (ccc {U.ccc[m2]}, modified {U.mcc[m2]}), texts "
+                                  f"{texts[0]} / {texts[1]}: {ga} vs {gb}",
                                   {"stage": "search", "stream": "reorder", "font_line": grp[0],
-                                   "request": grp[1 + 4 * i + off], "request2": grp[2 + 4 * i + off],
+                                   "request": grp[1 + 6 * i + off], "request2": grp[2 + 6 * i + off],
                                    "observed": a, "observed2": b})
-    ctx.note_search("reorder", n, nontriv, class_pairs=len(classes), blocks=len(groups),
+    ctx.note_search("reorder", n, nontriv, class_pairs=len(classes), blocks=len(groups), deviations=nbad,
                     rule="letter a + two marks of different non-zero canonical classes (same 256-block, or one from "
-                         "U+03xx) in both orders, alone and next to a third mark, cmap-only font without composites, "
-                         "script forced to Latn (default shaper): both orders must give the same glyphs; marks whose "
-                         "modified class is 0 are excluded")
+                         "U+03xx) in both orders, alone, next to a third mark, and on the precomposed base U+00E4 (the "
+                         "font has only a and U+0308) followed by a later unrelated cluster x + 1..3 variation selectors; "
+                         "cmap-only font without composites, script forced to Latn (default shaper): both orders must "
+                         "give the same glyphs and no .notdef; marks whose modified class is 0 are excluded")
+
+
+def context_pieces(r, marks):
+    """texts that may stand before / after a starter + marks cluster; each starts with a non-mark (or is a lone run
+    of selectors at the very start of the text), so the normalizer treats it as clusters of its own"""
+    x = r.choice([0x78, 0x4E00, 0x2205, 0x41])
+    k = r.below(10)
+    if k == 0: return []
+    if k == 1: return [x]
+    if k == 2: return [x] + vs_run(r)                              # base + selector(s)
+    if k == 3: return [x] + vs_run(r, lo=2)                        # base + several selectors
+    if k == 4: return [x, r.choice(marks)] + vs_run(r)             # selector after a mark, at the end of the run
+    if k == 5: return [x] + vs_run(r) + [r.choice(marks)]          # selector inside the mark run
+    if k == 6: return [x, r.choice(marks)] + vs_run(r) + [r.choice(marks)]
+    if k == 7: return [0x20, x] + vs_run(r)                        # after a simple character
+    if k == 8: return [x, 0xE4, r.choice(marks)] + vs_run(r)       # precomposed base + mark + selector
+    return [x] + vs_run(r) + [x] + vs_run(r)
+
+
+def search_context(ctx, shim, U, RD, RC, r, n_fonts, per_font):
+    """metamorphic: the default shaper normalizes cluster by cluster, so on a cmap-only font shaping P ++ A ++ S
+    gives the glyphs of P, of A and of S shaped on their own, when A and S start with a non-mark character.
+    A = starter + marks (needing decomposition / reordering / recomposition), P and S are drawn from
+    `context_pieces` (most of them contain variation selectors)."""
+    starters, marks = lgc_material(U, RD, RC)
+    by_base = {}
+    for c in RD:
+        if 0xD800 <= c <= 0xDFFF:
+            continue
+        f = nfd([c])
+        if all(x in marks for x in f[1:]) and len(f) > 1:
+            by_base.setdefault(f[0], []).append(c)
+    P = pools(U)
+    ctx_chars = [0x78, 0x4E00, 0x2205, 0x41, 0x20, 0xE4]
+    groups, meta = [], []
+    for fi in range(n_fonts):
+        ss = r.sample(starters, 6)
+        leaves, comps = set(marks), set()
+        for s_ in ss:
+            base = nfd([s_])[0]
+            leaves.add(base)
+            comps |= set(by_base.get(base, [])) | {s_}
+        mode = r.below(4)
+        sup = set(leaves) | set(ctx_chars)
+        if mode == 0: sup |= comps
+        elif mode == 1: sup |= {c for c in comps if r.chance(1, 2)}
+        elif mode == 2: sup |= {c for c in comps if r.chance(1, 2)}; sup -= {c for c in ss if r.chance(1, 2)}
+        # fonts with and without glyphs for the selectors
+        vs_glyphs = r.chance(2, 3)
+        if vs_glyphs: sup |= set(VS_POOL)
+        if r.chance(1, 3): sup.discard(0x20)
+        g = groups_from_set(sorted(sup))
+        # fonts with and without variation-sequence support (cmap format 14)
+        uvs = None
+        if r.chance(1, 2):
+            uvs = []
+            for c in ctx_chars[:4] + ss[:2]:
+                for v in r.sample(VS_POOL, 3):
+                    uvs.append((c, v, None if r.chance(1, 3) else 400 + len(uvs)))
+        lines = [f"font x {build_font(g, uvs).hex()}"]
+        cases = []
+        for _ in range(per_font):
+            s_ = r.choice(ss)
+            if r.chance(3, 4):
+                A = [s_] + [r.choice(marks) for _ in range(r.range(1, 3))]
+            else:
+                A = [r.choice(P["dec"])] + [r.choice(P["seconds"]) for _ in range(r.range(1, 2))]
+                A = [c for c in A if c not in U.vs]
+            if A[0] in U.marks:
+                A = [s_] + A
+            pre = context_pieces(r, marks) if r.chance(1, 2) else []
+            if r.chance(1, 8):
+                pre = vs_run(r)                      # a lone run of selectors at the start of the text
+            post = context_pieces(r, marks)
+            flags = r.choice([0, 0, 4, 4, 8])
+            extra = " nfvs=1" if r.chance(1, 6) else ""
+            parts = [p for p in (pre, A, post) if p]
+            whole = pre + A + post
+            lines.append(shape_line("x", whole, flags, extra))
+            for p in parts:
+                lines.append(shape_line("x", p, flags, extra))
+            cases.append((pre, A, post, len(parts), flags))
+        groups.append(lines)
+        meta.append((g, uvs, vs_glyphs, cases))
+    outs = vlib.run_groups(shim, groups, timeout=1800)
+    n = nontriv = nbad = 0
+    dist = {}
+    for (g, uvs, vs_glyphs, cases), o, grp in zip(meta, outs, groups):
+        i = 1
+        for pre, A, post, np_, flags in cases:
+            whole_out, whole_ln = o[i], grp[i]
+            part_outs, part_lns = o[i + 1:i + 1 + np_], grp[i + 1:i + 1 + np_]
+            i += 1 + np_
+            n += 1
+            got = parse_shape(whole_out)
+            pieces = [parse_shape(x) for x in part_outs]
+            has_vs = any(c in U.vs for c in pre + post)
+            later = any(c in U.vs for c in post)
+            key = ("selector-later" if later else "selector-before" if has_vs else "no-selector") + \
+                  (":format14" if uvs else "") + ("" if vs_glyphs else ":no-selector-glyphs") + f":flags{flags}"
+            dist[key] = dist.get(key, 0) + 1
+            if has_vs:
+                nontriv += 1
+            want = None if any(x is None for x in pieces) else [y for x in pieces for y in x]
+            if got is None or want is None or got != want:
+                nbad += 1
+                if nbad > 3:
+                    continue
+                ctx.violation(f"the glyphs of {['%04X' % c for c in A]} depend on the clusters around it: "
+                              f"{['%04X' % c for c in pre]} + {['%04X' % c for c in A]} + {['%04X' % c for c in post]} "
+                              f"shaped to {got}, the parts on their own to {pieces}",
+                              {"stage": "search", "stream": "context", "font_line": grp[0], "request": whole_ln,
+                               "part_requests": part_lns, "expected_glyphs": want, "observed": whole_out,
+                               "observed_parts": part_outs, "flags": flags, "format14": bool(uvs)})
+    ctx.note_search("context", n, nontriv, distribution=dist, fonts=n_fonts, deviations=nbad,
+                    rule="P ++ A ++ S against P, A, S shaped on their own (same cmap-only font, flags default / "
+                         "PRESERVE_DEFAULT_IGNORABLES / REMOVE_DEFAULT_IGNORABLES, sometimes a not-found-variation-selector "
+                         "glyph): A = Latin/Greek/Cyrillic starter (often precomposed) + 1..3 marks, or a decomposable "
+                         "character + second components; P, S = nothing, a letter, or clusters with one or several "
+                         "consecutive variation selectors after a base, after a mark, inside and at the end of a mark run; "
+                         "fonts with all / half / none of the composites, with and without glyphs for the selectors, "
+                         "with and without a cmap format 14 subtable; the glyph sequences must concatenate; non-trivial = "
+                         "a selector somewhere in the text")
 
 
 def search_cap(ctx, shim):
@@ -728,8 +973,9 @@ def run(ctx):
         "the theorems are about the Lean model of ot_shape_normalize.rs / unicode.rs (Norm.lean); the model is tied to "
         "the crate by the norm-run correspondence stream (hook verif::normalize::normalize on a bare buffer, default "
         "shaper, normalization preference 0..4, cluster level 0/1)",
-        "clusters containing a variation selector, cluster level 2 and shapers that override compose/decompose or "
-        "reorder_marks (Hebrew, Arabic, Indic, USE, ...) are outside the model",
+        "clusters containing a variation selector are modelled (handle_variation_selector_cluster, cmap format 14 as a "
+        "parameter); cluster level 2 and shapers that override compose/decompose or reorder_marks (Hebrew, Arabic, "
+        "Indic, USE, ...) are outside the model",
         "Unicode data are the crate's own tables (Gen/Norm.lean, dumped through hooks); the reference (Gen/NormRef.lean) "
         "is CPython unicodedata %s restricted to characters assigned there" % unicodedata.unidata_version,
     ]
@@ -748,6 +994,7 @@ def run(ctx):
     search_singles(ctx, shim, U, RD, ctx.budget(2, 1))
     search_strings(ctx, shim, U, RD, RC, ctx.rng("strings"), ctx.budget(100, 10 ** 6), ctx.budget(1, 2),
                    ctx.budget(40, 120))
+    search_context(ctx, shim, U, RD, RC, ctx.rng("context"), ctx.budget(60, 600), ctx.budget(40, 100))
 
 
 def replay(ctx, rp):
@@ -756,6 +1003,14 @@ def replay(ctx, rp):
         o = vlib.run_groups(shim, [[rp["font_line"], rp["request"], rp["request2"]]], nproc=1)[0]
         print("order 1:", o[1]); print("order 2:", o[2])
         return 0 if parse_shape(o[1]) == parse_shape(o[2]) and parse_shape(o[1]) is not None else 1
+    if rp.get("stream") == "context":
+        o = vlib.run_groups(shim, [[rp["font_line"], rp["request"]] + rp["part_requests"]], nproc=1)[0]
+        print("whole:", o[1])
+        for x in o[2:]:
+            print("part :", x)
+        parts = [parse_shape(x) for x in o[2:]]
+        ok = parse_shape(o[1]) is not None and None not in parts and parse_shape(o[1]) == [y for x in parts for y in x]
+        return 0 if ok else 1
     if "font_line" in rp and "expected_glyphs" in rp:
         o = vlib.run_groups(shim, [[rp["font_line"], rp["request"]]], nproc=1)[0]
         print("observed:", o[1]); print("expected glyphs:", rp["expected_glyphs"])
